@@ -194,9 +194,17 @@ class LinearizeStringExpressionVisitor(
         self.leaves.append(node)
         return False
 
+    def _is_read_elsewhere(self, node: cst.Name) -> bool:
+        assignment = self.find_single_assignment(node)
+        return assignment is not None and len(assignment.references) > 1
+
     def recurse_Name(
         self, node: cst.Name
     ) -> list[StringLiteralNodeType | ExpressionNodeType]:
+        # The pieces of a variable's value get edited in place: only look through a
+        # variable that nothing else reads
+        if self._is_read_elsewhere(node):
+            return [node]
         # if the expression is a name, try to find its single assignment
         if (resolved := self.resolve_expression(node)) != node:
             visitor = LinearizeStringExpressionVisitor(self.context)
